@@ -288,6 +288,13 @@ class Parser:
         while self.current().type in skip_types:
             self.advance()
 
+    def _skip_whitespace_collecting(self, comments: list[str]) -> None:
+        """Skip newlines and comments, appending the comment texts to ``comments``."""
+        while self.current().type in (TokenType.NEWLINE, TokenType.COMMENT):
+            if self.current().type == TokenType.COMMENT:
+                comments.append(self.current().value)
+            self.advance()
+
     def collect_leading_comments(self) -> list[str]:
         """Collect leading comment lines before a node.
 
@@ -512,14 +519,17 @@ class Parser:
     def parse_document(self) -> Document:
         """Parse a complete OCTAVE document."""
         doc = Document()
-        self.skip_whitespace()
+        # Issue #182: comments before the envelope / first node are not dropped; they lead
+        # the first body node (or become document trailing comments when there is none)
+        pre_comments: list[str] = []
+        self._skip_whitespace_collecting(pre_comments)
 
         # Issue #48 Phase 2: Check for grammar sentinel OCTAVE::VERSION
         # The lexer now produces a GRAMMAR_SENTINEL token for this pattern
         if self.current().type == TokenType.GRAMMAR_SENTINEL:
             doc.grammar_version = self.current().value  # Version string from lexer
             self.advance()
-            self.skip_whitespace()
+            self._skip_whitespace_collecting(pre_comments)
 
         # Check for explicit envelope
         if self.current().type == TokenType.ENVELOPE_START:
@@ -547,7 +557,7 @@ class Parser:
 
         # Parse document body
         # Issue #182: Track pending comments for next section
-        pending_comments: list[str] = []
+        pending_comments: list[str] = pre_comments
         # GH#294: Track key positions for duplicate detection at document level
         doc_key_positions: dict[str, list[int]] = {}
 
